@@ -22,6 +22,7 @@ type CallCtx struct {
 	name  string
 	args  []Value
 	fn    *ssa.Function
+	fundedOnly bool
 }
 
 func (c *CallCtx) ret(vals ...Value) []Outcome {
@@ -332,7 +333,7 @@ func (x *Exec) appendOp(st *State, fr *Frame, cc *ssa.CallCommon, args []Value, 
 		var n int
 		fmt.Sscan(blen, &n)
 		for i := 0; i < n; i++ {
-			el := simpSelect(app("seq.arr", b.T), fmt.Sprint(i))
+			el := simpSelect(app("gseq.arr", b.T), fmt.Sprint(i))
 			idx := alen
 			if i > 0 {
 				idx = simpAdd(alen, i)
@@ -343,9 +344,9 @@ func (x *Exec) appendOp(st *State, fr *Frame, cc *ssa.CallCommon, args []Value, 
 	}
 	// symbolic-length append: result is a fresh sequence characterised by a quantified fact
 	r := x.freshTV("appended", cc.Args[0].Type(), st)
-	st.Assume(eq(app("seq.len", r.T), app("+", alen, blen)))
-	st.Assume(fmt.Sprintf("(forall ((i Int)) (! (=> (and (>= i 0) (< i %s)) (= (select (seq.arr %s) i) (select %s i))) :pattern ((select (seq.arr %s) i))))", alen, r.T, arr, r.T))
-	st.Assume(fmt.Sprintf("(forall ((i Int)) (! (=> (and (>= i 0) (< i %s)) (= (select (seq.arr %s) (+ %s i)) (select (seq.arr %s) i))) :pattern ((select (seq.arr %s) i))))", blen, r.T, alen, b.T, b.T))
+	st.Assume(eq(app("gseq.len", r.T), app("+", alen, blen)))
+	st.Assume(fmt.Sprintf("(forall ((i Int)) (! (=> (and (>= i 0) (< i %s)) (= (select (gseq.arr %s) i) (select %s i))) :pattern ((select (gseq.arr %s) i))))", alen, r.T, arr, r.T))
+	st.Assume(fmt.Sprintf("(forall ((i Int)) (! (=> (and (>= i 0) (< i %s)) (= (select (gseq.arr %s) (+ %s i)) (select (gseq.arr %s) i))) :pattern ((select (gseq.arr %s) i))))", blen, r.T, alen, b.T, b.T))
 	return []Outcome{{st: st, vals: []Value{r}}}
 }
 
@@ -393,6 +394,12 @@ func (x *Exec) ghostGet(st *State, h int, name, sort string, gi ghostInfo) strin
 		return t
 	}
 	var t string
+	if s.Parent >= 0 && !s.Havocked {
+		// branched store: an untouched cell has the parent's value
+		t = x.ghostGet(st, s.Parent, name, sort, gi)
+		s.G[name] = t
+		return t
+	}
 	if s.Epoch == 0 {
 		t = x.ghostInit(name, sort)
 	} else {
@@ -414,7 +421,8 @@ func (x *Exec) havocGhost(st *State, names map[string]bool, all bool) {
 	for _, s := range st.stores {
 		if all {
 			s.G = map[string]string{}
-			s.Epoch++
+			s.Epoch = x.newEpoch()
+			s.Havocked = true
 			continue
 		}
 		for n := range names {
@@ -431,7 +439,7 @@ func (x *Exec) newHandle(st *State, parent int) int {
 	x.nextH++
 	h := x.nextH
 	p := x.store(st, parent)
-	c := &Store{Parent: parent, G: map[string]string{}, Epoch: p.Epoch}
+	c := &Store{Parent: parent, G: map[string]string{}, Epoch: p.Epoch, Havocked: false}
 	for k, v := range p.G {
 		c.G[k] = v
 	}
@@ -442,11 +450,14 @@ func (x *Exec) newHandle(st *State, parent int) int {
 func (x *Exec) commit(st *State, c CommitV) {
 	child := x.store(st, c.Child)
 	parent := x.store(st, c.Parent)
+	if child.Havocked {
+		// everything not materialised in the child is unknown
+		parent.G = map[string]string{}
+		parent.Epoch = x.newEpoch()
+		parent.Havocked = true
+	}
 	for k, v := range child.G {
 		parent.G[k] = v
-	}
-	if child.Epoch != parent.Epoch {
-		parent.Epoch = child.Epoch
 	}
 	parent.Events = append(parent.Events, child.Events...)
 	parent.EvOpaque = parent.EvOpaque || child.EvOpaque
@@ -742,6 +753,11 @@ func (c *cenv) Lookup(name string, old bool) (SV, bool) {
 		return SV{T: t, Ty: gi.ValTy, Opt: gi.Opt, Arr: gi.Arr, Sort: gi.Sort}, true
 	}
 	switch name {
+	case "$evOpaque":
+		if x.store(st, 0).EvOpaque {
+			return SV{T: "true", Sort: "Bool"}, true
+		}
+		return SV{T: "false", Sort: "Bool"}, true
 	case "now":
 		return SV{T: x.blockTime(), Sort: "Int"}, true
 	case "height":
@@ -866,11 +882,23 @@ func (x *Exec) evalEmits(cl *Clause, env SpecEnv, bound map[string]SV) (string, 
 		if n.Kind == "ident" && n.Name == "nothing" {
 			continue
 		}
+		if n.Kind == "call" && n.Name == "none" && len(n.Args) == 1 {
+			sv, err := EvalSpec(n.Args[0], env, x.sigs, bound)
+			if err != nil {
+				return "", nil, err
+			}
+			evs = append(evs, Event{Ty: sv.T, None: true})
+			continue
+		}
 		if n.Kind != "call" || n.Name != "ev" || len(n.Args)%2 != 1 {
 			return "", nil, fmt.Errorf("emits expects ev(type, k, v, ...)")
 		}
 		var ts []string
 		for _, a := range n.Args {
+			if a.Kind == "ident" && a.Name == "_" {
+				ts = append(ts, "")
+				continue
+			}
 			sv, err := EvalSpec(a, env, x.sigs, bound)
 			if err != nil {
 				return "", nil, err
